@@ -476,26 +476,28 @@ func randMutagenPattern(r *rand.Rand, hint [][]string) Raw {
 	return normRaw(Raw{Neg: r.Intn(3) == 0, Comps: noAdjacentDoubleStars(comps)})
 }
 
-// noAdjacentDoubleStars replaces a "**" component that follows another one
-// (ignoring empty and "." components, which cleaning removes) by "*":
-// doublestar treats consecutive "**" components specially ("a/**/**" does not
-// match "a" although "a/**" does), so they are outside the token grammar.
+// noAdjacentDoubleStars keeps random patterns inside the token grammar on which
+// doublestar behaves as Glob!MatchPath says. A "**" component is replaced by
+// "*" when it follows (ignoring empty and "." components, which cleaning
+// removes) another "**" component ("a/**/**" does not match "a" although "a/**"
+// does) or a component of two or more tokens that ends in "*" ("b*/**" does
+// not match "b" although "b/**" does and "b*/**" matches "bx").
 func noAdjacentDoubleStars(comps [][]string) [][]string {
-	last := false
+	blocked := false
 	for i, cp := range comps {
 		s := strings.Join(cp, "")
 		if s == "" || s == "." {
 			continue
 		}
 		if s == "**" {
-			if last {
+			if blocked {
 				comps[i] = []string{"*"}
-				last = false
+				blocked = false
 				continue
 			}
-			last = true
+			blocked = true
 		} else {
-			last = false
+			blocked = len(cp) > 1 && cp[len(cp)-1] == "*"
 		}
 	}
 	return comps
